@@ -258,6 +258,9 @@ func (fr *Frame) preludeCall(st *State, name string, fn *ssa.Function, args []Va
 			fmt.Fprintf(os.Stderr, "ALLOCATED in %s oldDepth=%d heapAlloc=%v\n", fr.fn.Name(), st.oldDepth, st.heap["Alloc"])
 		}
 		return Val{T: Select(ex.get(st, "Alloc", ArraySort(SRef, SBool)), args[0].T)}, true
+	case "__same":
+		// value identity (also for types Go cannot compare with ==)
+		return Val{T: Eq(args[0].T, args[1].T)}, true
 	case "__sameSlice":
 		return Val{T: Eq(args[0].T, args[1].T)}, true
 	case "__nilSlice":
@@ -338,6 +341,7 @@ func (fr *Frame) applyContract(st *State, fn *ssa.Function, c *LoadedContract, a
 	pre := st.clone()
 	// havoc the callee's frame
 	frame := ex.w.frameOf(fn, c)
+	ex.ctx.importTypeLines(frame.typeLines)
 	if os.Getenv("VC_DEBUG") != "" && ex.quiet == 0 {
 		fmt.Fprintf(os.Stderr, "FRAME %s all=%v %v\n", key, frame.all, sortedKeys(frame.comps))
 	}
@@ -419,14 +423,17 @@ func (fr *Frame) resolveLoopVar(st *State, li *loopInfo, name string) (Val, bool
 			}
 			x := dr.X
 			if xi, ok := x.(ssa.Instruction); ok {
-				if !(xi.Block() == li.header || xi.Block().Dominates(li.header)) {
-					// defined inside the loop body: acceptable only if already computed
-					if _, have := fr.regs[x]; !have {
+				// only values whose definition dominates the loop header denote the
+				// variable's value at the header (header phis were handled above)
+				if xi.Block() == li.header {
+					if _, isPhi := x.(*ssa.Phi); !isPhi {
 						continue
 					}
-					if li.blocks[xi.Block()] && xi.Block() != li.header {
-						continue
-					}
+				} else if !xi.Block().Dominates(li.header) {
+					continue
+				}
+				if _, have := fr.regs[x]; !have {
+					continue
 				}
 			}
 			best = x
@@ -493,6 +500,9 @@ func (fr *Frame) enterLoop(li *loopInfo, st *State, b *ssa.BasicBlock) {
 	}
 	// 2. discover what the body writes (dry run)
 	mod := fr.loopMod(li, st)
+	if os.Getenv("VC_DEBUG") != "" && ex.quiet == 0 {
+		fmt.Fprintf(os.Stderr, "LOOPMOD %s loop%d %v\n", fr.fn.Name(), li.ord, sortedKeys(mod))
+	}
 	// 3. havoc
 	for _, in := range li.header.Instrs {
 		phi, ok := in.(*ssa.Phi)
